@@ -139,7 +139,7 @@ fn c13_variants(len: usize, thorough: bool) -> Vec<(Cut, bool)> {
     }
     v.push((Cut::EveryByte, false));
     v.push((Cut::EveryByte, true));
-    let n = if thorough { 300 } else { 20 };
+    let n = if thorough { 1000 } else { 20 };
     for r in 0..n {
         v.push((Cut::Random(r), r % 2 == 1));
     }
@@ -148,7 +148,7 @@ fn c13_variants(len: usize, thorough: bool) -> Vec<(Cut, bool)> {
 
 fn c13_index(index: u64, thorough: bool) -> (usize, Cut, bool, u64) {
     // thorough: several schedule samples per cut
-    let reps = if thorough { 6 } else { 1 };
+    let reps = if thorough { 30 } else { 1 };
     let mut i = index;
     for (ci, cv) in corpus().iter().enumerate() {
         let len: usize = cv.msgs.iter().map(|m| m.len()).sum();
@@ -164,7 +164,7 @@ fn c13_index(index: u64, thorough: bool) -> (usize, Cut, bool, u64) {
 }
 
 fn c13_total(thorough: bool) -> u64 {
-    let reps = if thorough { 6 } else { 1 };
+    let reps = if thorough { 30 } else { 1 };
     corpus()
         .iter()
         .map(|cv| c13_variants(cv.msgs.iter().map(|m| m.len()).sum(), thorough).len() as u64 * reps)
@@ -259,7 +259,7 @@ impl Campaign for C13c {
         "fault_enumeration"
     }
     fn rule(&self) -> &'static str {
-        "fault = segmentation. For each of the corpus conversations (all framing kinds, pipelines, every error class, 100-continue, long heads, large responses): the unsplit delivery, EVERY single split point with and without a virtual pause, one-byte-at-a-time with and without pauses, and 20 (thorough: 300) random multi-way splits; each read returns exactly one segment; schedules are sampled (thorough: 6 per cut). The quick tier enumerates the single-cut space of the corpus completely. Non-trivial = the delivery is split at least once; distinct = (conversation, cut set, pause, schedule) fingerprint"
+        "fault = segmentation. For each of the corpus conversations (all framing kinds, pipelines, every error class, 100-continue, long heads, large responses): the unsplit delivery, EVERY single split point with and without a virtual pause, one-byte-at-a-time with and without pauses, and 20 (thorough: 1000) random multi-way splits; each read returns exactly one segment; schedules are sampled (thorough: 30 per cut). The quick tier enumerates the single-cut space of the corpus completely. Non-trivial = the delivery is split at least once; distinct = (conversation, cut set, pause, schedule) fingerprint"
     }
     fn runs(&self, tier: Tier) -> u64 {
         c13_total(tier == Tier::Thorough)
@@ -336,7 +336,7 @@ enum Vanish {
 
 /// part A: (conversation, prefix length, kind); part B: response-side vanishing
 fn c15_index(index: u64, thorough: bool) -> (usize, usize, Vanish, u64, bool) {
-    let reps = if thorough { 4 } else { 1 };
+    let reps = if thorough { 30 } else { 1 };
     let mut i = index;
     for (ci, cv) in corpus().iter().enumerate() {
         let len: usize = cv.msgs.iter().map(|m| m.len()).sum();
@@ -356,12 +356,12 @@ fn c15_index(index: u64, thorough: bool) -> (usize, usize, Vanish, u64, bool) {
 const C15_B: u64 = 6000;
 
 fn c15_total(thorough: bool) -> u64 {
-    let reps = if thorough { 4 } else { 1 };
+    let reps = if thorough { 30 } else { 1 };
     corpus()
         .iter()
         .map(|cv| (cv.msgs.iter().map(|m| m.len()).sum::<usize>() as u64 + 1) * 3 * reps)
         .sum::<u64>()
-        + if thorough { C15_B * 10 } else { C15_B }
+        + if thorough { C15_B * 100 } else { C15_B }
 }
 
 impl Campaign for C15c {
@@ -372,7 +372,7 @@ impl Campaign for C15c {
         "fault_enumeration"
     }
     fn rule(&self) -> &'static str {
-        "fault = the client vanishing. Part A: for each corpus conversation EVERY prefix length k in 0..=len of the client's byte stream, followed by half-close, full close (server writes then succeed for a seeded number of bytes before failing with BrokenPipe/ConnectionReset) or reset; a second connection opened afterwards must be served. Part B: response-heavy conversations (identity 40000 / chunked 9000 / small) with the client gone before the response, after m received bytes, or not reading behind a small send window and then gone. Schedules and post-close write budgets are sampled (thorough: 4 per cut point). The quick tier enumerates the (conversation, prefix, kind) space completely. Non-trivial = the cut falls strictly inside the conversation (0 < k < len) or the client leaves while a response is in flight; distinct = (conversation, cut, kind, schedule) fingerprint"
+        "fault = the client vanishing. Part A: for each corpus conversation EVERY prefix length k in 0..=len of the client's byte stream, followed by half-close, full close (server writes then succeed for a seeded number of bytes before failing with BrokenPipe/ConnectionReset) or reset; a second connection opened afterwards must be served. Part B: response-heavy conversations (identity 40000 / chunked 9000 / small) with the client gone before the response, after m received bytes, or not reading behind a small send window and then gone. Schedules and post-close write budgets are sampled (thorough: 30 per cut point). The quick tier enumerates the (conversation, prefix, kind) space completely. Non-trivial = the cut falls strictly inside the conversation (0 < k < len) or the client leaves while a response is in flight; distinct = (conversation, cut, kind, schedule) fingerprint"
     }
     fn runs(&self, tier: Tier) -> u64 {
         c15_total(tier == Tier::Thorough)
